@@ -400,12 +400,16 @@ func (c *Checker) CheckSource(sourceName string, source string) (compiler.Compil
 	c.macroChecks = nil
 	c.signatureChecks = ds.NewOrderedMap[string, *[]signatureCheckEntry]()
 	c.setDefinedMacros(false)
+	prevCompiler := c.compiler
 	compiler := c.CheckProgram(ast)
 
 	if c.Errors.IsFailure() {
 		// restore the previous global environment if the code
 		// did not compile
 		c.setRuntimeGlobalEnv(envCopy)
+		// the next input has to continue from the compiler of the last
+		// accepted input, not from wherever this one got to
+		c.compiler = prevCompiler
 		c.localEnvs = localEnvsCopy
 		c.constantScopes = constantScopesCopy
 		c.methodScopes = methodScopesCopy
